@@ -170,8 +170,13 @@ pub enum Workload {
     Build { ty: String, name: String, calls: Vec<BuilderCall> },
     /// `GenericPurl::new(SimShape{ty}, name)`.
     New { ty: String, name: String },
-    /// Parse `input` under the all-succeed script, then `into_builder().build()` under the script.
-    Rebuild { input: String },
+    /// Parse `input` under the all-succeed script, then `into_builder()`, the calls (usually none),
+    /// and `build()` under the script.
+    Rebuild {
+        input: String,
+        #[serde(default)]
+        calls: Vec<BuilderCall>,
+    },
     /// `GenericPurl::<SimShape>::deserialize` of a string value holding `input` (serde entry point).
     Deserialize { input: String },
 }
@@ -822,7 +827,7 @@ impl C14 {
                 ctx_owned = format!("script {n} {script:?}, deserialize {input:?}");
                 (Kind::Parse, if reference.is_ok() { "deserialize_valid" } else { "deserialize_refused_by_generic" }, Some(input.as_str()), Some(reference.is_ok()), r)
             },
-            Workload::Rebuild { input } => {
+            Workload::Rebuild { input, calls } => {
                 install(&BENIGN, token_base);
                 let first = guarded(|| GenericPurl::<SimShape>::from_str(input))
                     .map_err(|p| violation!("C14.panic_in_parse", "parsing {input:?} panicked: {p}"))?;
@@ -831,9 +836,16 @@ impl C14 {
                     return Ok(false);
                 };
                 install(script, token_base);
-                let builder = first.into_builder();
+                let Some(builder) = apply_calls(first.into_builder(), calls) else {
+                    let (events, _) = take_events();
+                    if !events.is_empty() {
+                        return Err(violation!("C14.callback_without_build", "script {n}: builder setters invoked callbacks: {events:?}"));
+                    }
+                    stats.bump("workload.build_setter_refused");
+                    return Ok(false);
+                };
                 let r = guarded(move || builder.build()).map_err(|p| violation!("C14.panic_in_build", "script {n} {script:?}: re-build of {input:?} panicked: {p}"))?;
-                ctx_owned = format!("script {n} {script:?}, into_builder().build() of {input:?}");
+                ctx_owned = format!("script {n} {script:?}, into_builder() {calls:?} build() of {input:?}");
                 (Kind::Build, "rebuild", None, None, r)
             },
         };
@@ -976,7 +988,10 @@ impl Sim for C14 {
             },
             _ => {
                 let c = gen::components(&mut rng, false);
-                Workload::Rebuild { input: gen::spell(&c, if rng.chance(1, 2) { 0 } else { rng.subseed() }) }
+                Workload::Rebuild {
+                    input: gen::spell(&c, if rng.chance(1, 2) { 0 } else { rng.subseed() }),
+                    calls: if rng.chance(1, 2) { Vec::new() } else { builder_calls(&mut rng) },
+                }
             },
         };
         // The complete menu of single-fault scripts: conv in 3 x hook in {nothing, each action} x result in 2.
@@ -1046,9 +1061,16 @@ impl Sim for C14 {
         }
         // Simpler workloads.
         match &sc.workload {
-            Workload::Parse { input } | Workload::Rebuild { input } | Workload::Deserialize { input } => {
-                let mk = |s: String| match sc.workload {
-                    Workload::Rebuild { .. } => Workload::Rebuild { input: s },
+            Workload::Parse { input } | Workload::Rebuild { input, .. } | Workload::Deserialize { input } => {
+                if let Workload::Rebuild { calls, .. } = &sc.workload {
+                    for i in 0..calls.len() {
+                        let mut c = calls.clone();
+                        c.remove(i);
+                        out.push(Scenario { workload: Workload::Rebuild { input: input.clone(), calls: c }, scripts: sc.scripts.clone() });
+                    }
+                }
+                let mk = |s: String| match &sc.workload {
+                    Workload::Rebuild { calls, .. } => Workload::Rebuild { input: s, calls: calls.clone() },
                     Workload::Deserialize { .. } => Workload::Deserialize { input: s },
                     _ => Workload::Parse { input: s },
                 };
